@@ -14,7 +14,10 @@ read                                    -> ok <image-list>            (noiseless
                                            ok random off|on           (noisy with photon or read noise on)
 readrng <δ-list> <z-list>               noisy read-out with the random draws given (`pReadOutRng`): δ = Poisson draw − expectation,
                                         z = standard-normal deviates of the read noise
-                                        -> ok <image-list> <lam-list|->   (lam = what the photon-noise stage is handed; `-` when it is off)
+                                        -> ok <image-list> <lam-list|-> <spec-list|->
+                                        lam = what the photon-noise stage is handed (`-` when it is off); spec = the closed form
+                                        `Σ bin(p)·dt·w ⊕ dark·Σ dt·w` (`sumCharges`, `darkTime`) over the integrations since the last
+                                        read-out (`-` when the dark current rate was assigned during the exposure)
 imgs                                    -> ok <list;list;…|->   `images` of all observations so far: the images returned, in order
                                         (read-outs with photon / read noise on are not images)
 twin                                    noisy kinds: -> ok <list;…|->  the images a noiseless detector returns on the history with the
@@ -48,6 +51,10 @@ structure St where
   obs : List (Obs Rat) := []
   /-- the history of a noisy detector so far, setters included -/
   pops : List (POp Rat) := []
+  /-- noisy kinds: the integrations accepted since the last read-out, and whether the dark current rate has stayed
+  what it was when the first of them was made (then the closed form of `noisy_charge_is_sum_plus_dark` applies) -/
+  cur : List (List Rat × Rat × Rat) := []
+  darkConst : Bool := true
 
 /-- `<s>`: one factor for every axis, or a list of per-axis factors (same order and length as `dims`, none zero) -/
 def parseGeom? (s dims : String) : Option Geom :=
@@ -76,7 +83,14 @@ def apply (st : St) (op : Op Rat) : St × String :=
     let flag := match op with
       | .readOut => if st.pst.off st.geom then " off" else " on"
       | _ => ""
-    ({ st with pst := r.1, obs := st.obs ++ [r.2], pops := st.pops ++ [lift op] }, showObs r.2 ++ flag)
+    let cur := match op, r.2 with
+      | .integrate p dt w, .done => st.cur ++ [(p, dt, w)]
+      | .integrate _ _ _, _ => st.cur
+      | .readOut, _ => []
+    let dc := match op with
+      | .readOut => true
+      | _ => st.darkConst
+    ({ st with pst := r.1, obs := st.obs ++ [r.2], pops := st.pops ++ [lift op], cur := cur, darkConst := dc }, showObs r.2 ++ flag)
 
 def step (st : St) : List String → St × String
   | ["reset"] => ({}, "ok")
@@ -104,8 +118,10 @@ def step (st : St) : List String → St × String
     | some d, some z =>
       if d.length ≠ st.geom.npix || z.length ≠ st.geom.npix then (st, "bad-op") else
       let r := pReadOutRng st.geom st.pst d z
-      ({ st with pst := r.1, pops := st.pops ++ [.readOut] }, "ok " ++ showRatList r.2 ++ " " ++
-        (if st.pst.photon then showRatList (st.pst.lam st.geom) else "-"))
+      ({ st with pst := r.1, pops := st.pops ++ [.readOut], cur := [], darkConst := true }, "ok " ++ showRatList r.2 ++ " " ++
+        (if st.pst.photon then showRatList (st.pst.lam st.geom) else "-") ++ " " ++
+        (if st.darkConst then
+          showRatList (vadd (sumCharges st.geom st.cur) (st.pst.dark.map (· * darkTime st.cur))) else "-"))
     | _, _ => (st, "bad-op")
   | ["int", p, dt, w] =>
     match parseRatList? p, parseRat? dt, parseRat? w with
@@ -179,7 +195,8 @@ def step (st : St) : List String → St × String
       if l.length ≠ st.geom.npix then (st, "bad-op") else
       match what with
       | "flat" => ({ st with pst := (Detector.pStep st.geom st.pst (.setFlat l)).1, pops := st.pops ++ [.setFlat l] }, "ok")
-      | "dark" => ({ st with pst := (Detector.pStep st.geom st.pst (.setDark l)).1, pops := st.pops ++ [.setDark l] }, "ok")
+      | "dark" => ({ st with pst := (Detector.pStep st.geom st.pst (.setDark l)).1, pops := st.pops ++ [.setDark l],
+                              darkConst := st.darkConst && st.cur.isEmpty }, "ok")
       | "sigma" => ({ st with pst := (Detector.pStep st.geom st.pst (.setSigma l)).1, pops := st.pops ++ [.setSigma l] }, "ok")
       | _ => (st, "bad-op")
     | none => (st, "bad-op")
